@@ -1410,6 +1410,21 @@ def _args_new(ex, c, a, dt):
     try:
         if c.method in ('from_str', 'from_str_nonconst'):
             return Opaque('Arguments', as_str(a[0]))
+        if c.method == 'new' and type(deref(a[0])) is VecV and len(a) == 2:
+            tpl = bytes(x.v for x in deref(a[0]).items)
+            argv = [x.v for x in items(a[1])]
+            out, i, k = [], 0, 0
+            while i < len(tpl):
+                b = tpl[i]; i += 1
+                if b == 0:
+                    break
+                if b < 0x80:
+                    out.append(tpl[i:i + b].decode('utf8', 'replace')); i += b
+                else:
+                    arg = argv[k] if k < len(argv) else None
+                    k += 1
+                    out.append(arg.data if type(arg) is Opaque and isinstance(arg.data, str) else '<arg>')
+            return Opaque('Arguments', ''.join(out))
         pieces = [as_str(x.v) for x in items(a[0])]
         if c.method == 'new_const' or len(a) < 2:
             return Opaque('Arguments', ''.join(pieces))
